@@ -12,7 +12,7 @@ Line-protocol driver of the C17 path post-processing model (header `pathops`).
   env <space> boxes … res <f>        -> ok w=<leaf count>       (only the space is used by the model)
   path <n> <state>*n                 -> ok
   collapse <ms> <me> cm <m> (<a> <b> <ans>)*m
-  rope <delta> <eqTol> cm …          -> r <ret> out … oob <0/1> fo <0/1> | old <the same for the code before fix F9> | f173 <with the repair proposed for F173>
+  rope <delta> <eqTol> cm …          -> r <ret> out … oob <0/1> fo <0/1> (tree) | old <code before fix F9> | chord <code before fix F173: end-point pricing>
   subdivide | interpn <count>
   interp vsc <k> <n>*k
   reduce <ms> <me> <rangeRatio> <k> <raw>*k cm …
@@ -198,17 +198,20 @@ def step (st : DSt) (ts : List String) : DSt × String :=
               | some (out, r, oob, fo) =>
                 "r " ++ retStr r ++ " " ++ showPath out ++ " oob " ++ retStr oob ++ " fo " ++ retStr fo
               | none => "idx-error"
-            -- the repair proposed for F173: the chord is priced by the pieces it will be densified into
+            -- fix F173: the chord is priced by the pieces it will be densified into
             let Efix : RopeEnv (St Float) Float := { E with
               chord := fun a b =>
                 let n := E.nInter a b
                 if n = 0 then E.motion a b
                 else ((a :: (inters E a b n ++ [b])).zip ((inters E a b n ++ [b]))).foldl (fun acc p => acc + E.motion p.1 p.2) 0.0 }
-            let showFix : String :=
-              match ropeShortcutPathG Efix true fuel st.path with
-              | some (out, r, _, fo) => "r " ++ retStr r ++ " " ++ showPath out ++ " fo " ++ retStr fo
+            -- the tree (since fix cfb403c2a, F173: the chord is priced by its densified pieces) first, then the code before fix F9
+            -- (stale index, end-point pricing), then the code before fix F173 (end-point pricing)
+            let showE (Ex : RopeEnv (St Float) Float) (fixed : Bool) : String :=
+              match ropeShortcutPathG Ex fixed fuel st.path with
+              | some (out, r, oob, fo) =>
+                "r " ++ retStr r ++ " " ++ showPath out ++ " oob " ++ retStr oob ++ " fo " ++ retStr fo
               | none => "idx-error"
-            (st, show1 true ++ " | old " ++ show1 false ++ " | f173 " ++ showFix)
+            (st, showE Efix true ++ " | old " ++ showE E false ++ " | chord " ++ showE E true)
           | _, _ => (st, "bad-op")
         | "subdivide", [] =>
           (st, "r -1 " ++ showPath (subdivide (fun a b => interp sp a b 0.5) st.path))
